@@ -659,6 +659,14 @@ def run1(case):
                 break
             out.append(["ok", snap(t)])
         return out
+    if k == "falsyleaf":
+        # finding F15: a leaf voice of a user class that is falsy (a note class whose rests have no pitches: __len__ == 0)
+        class Rest(C):
+            def __len__(self):
+                return 0
+        p = P([Rest(2), S([C(1), C(1)])])
+        parts = p.split_at(1)
+        return ["ok", [len(x) for x in parts], [[type(v).__name__ for v in x] for x in parts]]
     if k == "chist":
         # a history of tag / index operations on ONE container object
         t = build(case[1])
